@@ -13,7 +13,7 @@ import z3
 import ibldsp.fourier as F
 import ibldsp.utils as U
 from pyvc.api import harness, bounded, property_meta, run_function
-from pyvc.core import SV, term, fresh_name
+from pyvc.core import SV, term, fresh_name, Unsupported
 from pyvc import arrays as A, models
 from pyvc.arrays import SArr
 
@@ -58,6 +58,8 @@ def h_convolve(H):
             out = run_function(it, F.convolve, [x, w], {"mode": mode.split(".")[0]})
             log = it.ctx.fft_log
             kinds = [e["kind"] for e in log]
+            if kinds != ["rfft", "rfft", "irfft"]:
+                raise Unsupported(f"cannot identify the two forward transforms and the inverse transform of convolve (found {kinds})")
             it.ctx.oblige(f"convolve.transforms.{mode}", z3.BoolVal(kinds == ["rfft", "rfft", "irfft"]), "post")
             if kinds == ["rfft", "rfft", "irfft"]:
                 it.ctx.oblige(f"convolve.padded_inputs.{mode}", z3.And(A.T(log[0]["in_shape"][-1]) == nsopt, A.T(log[1]["in_shape"][-1]) == nsopt), "post", "both operands are zero padded to the fast size")
